@@ -40,6 +40,49 @@ fn subject_verify(pk: &[u8], msg: &[u8], sig: &[u8]) -> bool {
     .unwrap_or(false)
 }
 
+/// Two signer objects on the calling thread; returns the first disagreement with the one-shot
+/// signature of what the signing object was fed since its last sign().
+fn two_signers(seed_a: &[u8; 32], seed_b: &[u8; 32], ops: &[usize]) -> Option<String> {
+    let mut a = MsgSigner::from_seed(seed_a);
+    let mut b = MsgSigner::from_seed(seed_b);
+    let (mut ma, mut mb): (Vec<u8>, Vec<u8>) = (vec![], vec![]);
+    for (step, &op) in ops.iter().enumerate() {
+        match op {
+            0 => {
+                let c = canonical_message(7 + step * 5);
+                a.update(&c);
+                ma.extend_from_slice(&c);
+            }
+            1 => {
+                let c = canonical_message(11 + step * 3);
+                b.update(&c);
+                mb.extend_from_slice(&c);
+            }
+            2 => {
+                let got = a.sign();
+                let want = crypto::sign(seed_a, &ma);
+                if got[..] != want[..] {
+                    return Some(format!("step {}: signer A signed something other than the {} bytes it was fed", step, ma.len()));
+                }
+                ma.clear();
+            }
+            3 => {
+                let got = b.sign();
+                let want = crypto::sign(seed_b, &mb);
+                if got[..] != want[..] {
+                    return Some(format!("step {}: signer B signed something other than the {} bytes it was fed", step, mb.len()));
+                }
+                mb.clear();
+            }
+            _ => {
+                a = MsgSigner::from_seed(seed_a);
+                ma.clear();
+            }
+        }
+    }
+    None
+}
+
 pub fn run(ctx: &Ctx) -> Result<(), String> {
     ctx.set_level("exploration");
     let seeds = seeds_subset(ctx.seed, ctx.tier.pick(20, 600));
@@ -307,14 +350,48 @@ pub fn run(ctx: &Ctx) -> Result<(), String> {
         });
     }
 
+    // two signer objects (same or different seeds) alive on one thread: every interleaving (length <=
+    // depth) of {A.update, B.update, A.sign, B.sign, drop A and make a new one}. Each signature equals
+    // the one-shot signature of what THAT object was fed since its last sign().
+    let sdepth = ctx.tier.pick(5u32, 6);
+    {
+        let lseeds = seeds_subset(ctx.seed, ctx.tier.pick(2, 4));
+        let nseq: usize = (1..=sdepth).map(|l| 5usize.pow(l)).sum();
+        par_for(lseeds.len() * 2 * nseq, 64, |k, _| {
+            let (seed_a, _) = lseeds[k / (2 * nseq)];
+            let same_seed = (k / nseq) % 2 == 0;
+            let seed_b = if same_seed { seed_a } else { let mut s = seed_a; s[0] ^= 0x5a; s };
+            let mut idx = k % nseq;
+            let mut l = 1u32;
+            while idx >= 5usize.pow(l) {
+                idx -= 5usize.pow(l);
+                l += 1;
+            }
+            let ops: Vec<usize> = (0..l).map(|i| idx / 5usize.pow(i) % 5).collect();
+            if !ops.iter().any(|o| *o == 2 || *o == 3) {
+                return; // no signature produced: nothing to judge
+            }
+            evals.fetch_add(1, Relaxed);
+            nontrivial.fetch_add(1, Relaxed);
+            let r = catch(|| two_signers(&seed_a, &seed_b, &ops));
+            match r {
+                Err(p) => ctx.violation("signer-panic", "signer", "two-signers", json!({"kind":"two-signers","seed_a":hex(&seed_a),"seed_b":hex(&seed_b),"ops":ops,"panic":p})),
+                Ok(Some(m)) => ctx.violation("signature-differs", "signer", if same_seed { "two-signers/same-seed" } else { "two-signers/different-seeds" }, json!({"kind":"two-signers","seed_a":hex(&seed_a),"seed_b":hex(&seed_b),"ops":ops,"message":m,
+                    "legend":"0 A.update, 1 B.update, 2 A.sign, 3 B.sign, 4 drop A and create a new signer A"})),
+                Ok(None) => {}
+            }
+        });
+    }
+
     ctx.cov("evaluations", json!(evals.load(Relaxed)));
     ctx.cov("distinct_nontrivial", json!(nontrivial.load(Relaxed)));
+    ctx.cov("two_signer_interleavings_depth", json!(sdepth));
     ctx.cov("verifier_object_sequences_depth", json!(vdepth));
     ctx.cov("seeds", json!(seeds.len()));
     ctx.cov("sampled_seeds", json!(seeds.iter().filter(|s| s.1).count()));
     ctx.cov("exhaustive", json!(true));
     ctx.cov("bound", json!({"message_length_max":4096,"chunkings_n_max":maxn,"sequence_len_max":4,"sequence_alphabet":5,"long_sequence":32}));
-    ctx.cov("rule", json!(format!("per seed of a structured alphabet ({} seeds: zero, ff, RFC 8032 vectors, single-bit, single-byte-value, seeded random): every message length 0..=4096 signed back-to-back on one signer; two-chunk splits at 1/1023/1024/1025/len-1; all 2^(n-1) chunkings for n<={}; all sequences of length<=4 over 5 messages {{0,1,64,1024,4096 bytes}} on fresh signers; one 32-message sequence. Oracle: signature bytes == ed25519-dalek one-shot signature of that message alone. Verifier: valid triples and every single-bit corruption of message/signature/key vs direct verification (panic == reject); and for every message length 0..=4096 in 5-7 chunkings: the valid triple, a flipped bit in the first/middle/last byte, the signature of every 256-aligned proper prefix and of len-1, the message extended by one byte; and every sequence (length <= 4, thorough 5) of update/verify(valid)/verify(corrupted)/verify(signature of the earlier message) on ONE verifier object, every answer compared with direct verification of the message fed so far. Non-trivial = a case with >=2 chunks or >=2 messages on one signer, or a corrupted triple.", seeds.len(), maxn)));
+    ctx.cov("rule", json!(format!("per seed of a structured alphabet ({} seeds: zero, ff, RFC 8032 vectors, single-bit, single-byte-value, seeded random): every message length 0..=4096 signed back-to-back on one signer; two-chunk splits at 1/1023/1024/1025/len-1; all 2^(n-1) chunkings for n<={}; all sequences of length<=4 over 5 messages {{0,1,64,1024,4096 bytes}} on fresh signers; one 32-message sequence. Oracle: signature bytes == ed25519-dalek one-shot signature of that message alone. Verifier: valid triples and every single-bit corruption of message/signature/key vs direct verification (panic == reject); and for every message length 0..=4096 in 5-7 chunkings: the valid triple, a flipped bit in the first/middle/last byte, the signature of every 256-aligned proper prefix and of len-1, the message extended by one byte; and every sequence (length <= 4, thorough 5) of update/verify(valid)/verify(corrupted)/verify(signature of the earlier message) on ONE verifier object, every answer compared with direct verification of the message fed so far; every interleaving (length <= 5, thorough 6) of update/sign on TWO signer objects alive on one thread (same and different seeds; one may be dropped and re-created). Non-trivial = a case with >=2 chunks or >=2 messages on one signer, or a corrupted triple.", seeds.len(), maxn)));
     ctx.sample(json!({"kind":"chunking","n":5,"mask":"0b1010","chunks":[2,2,1]}));
     ctx.sample(json!({"kind":"sequence","seq":[4,0,2,1],"lengths":[4096,0,64,1]}));
     ctx.sample(json!({"kind":"verify","corruption":"signature-bit","bit":255}));
@@ -335,6 +412,15 @@ pub fn replay_case(c: &Value) -> Result<Option<String>, String> {
         let want = crypto::verify(&pk, &m, &sig);
         let got = subject_verify(&pk, &m, &sig);
         return Ok(if want != got { Some(format!("direct={} subject={}", want, got)) } else { None });
+    }
+    if c["kind"] == "two-signers" {
+        let sa: [u8; 32] = crypto::unhex(c["seed_a"].as_str().ok_or("seed_a")?).try_into().map_err(|_| "seed_a")?;
+        let sb: [u8; 32] = crypto::unhex(c["seed_b"].as_str().ok_or("seed_b")?).try_into().map_err(|_| "seed_b")?;
+        let ops: Vec<usize> = c["ops"].as_array().ok_or("ops")?.iter().map(|x| x.as_u64().unwrap_or(0) as usize).collect();
+        return Ok(match catch(|| two_signers(&sa, &sb, &ops)) {
+            Ok(x) => x,
+            Err(p) => Some(format!("panic {}", p)),
+        });
     }
     if c["kind"] == "verify-sequence" {
         let seed: [u8; 32] = crypto::unhex(c["seed"].as_str().ok_or("seed")?).try_into().map_err(|_| "seed")?;
